@@ -2,7 +2,7 @@ INIT TInit
 NEXT TNext
 CONSTANTS
   Names = {"a", "b", "c", "d"}
-  Tpls = {"T1", "T2", "T3", "T4"}
+  Tpls = {"T1", "T2", "T3", "T4", "T5"}
   MaxTicks = 1000
   MaxComps = 1000
 CONSTRAINT Mark
